@@ -311,6 +311,13 @@ class bpseq_dot_bracket:
     modifies = []
 
 
+class bpseq_dot_bracket_text(bpseq_dot_bracket):
+    """the same ASSUMED contract, reduced to what BpSeq.elements uses of the cached dot-bracket: its structure text has one
+    character per entry (every access returns the same object, ghost slot self.dot_bracket_)"""
+    ghost_returns = {}
+    ensures = ["len(result.structure) == len(self.entries)"]
+
+
 # ------------------------------------------------------------------------------------------------ BpSeq.without_pseudoknots
 @spec
 def same_sequence(L, E):
@@ -604,7 +611,9 @@ class bpseq_without_isolated:
          "do": ["let W = upd(W, stem.strand5p.first - 1, len(to_unpair) - 1)"]},
         {"when": "after", "at": "to_unpair.append(stem.strand3p.first - 1)", "loop": 0, "label": "W3",
          "do": ["let W = upd(W, stem.strand3p.first - 1, len(to_unpair) - 1)"]},
-        {"when": "after", "at": "entries = [Entry(", "label": "restate",
+        {"when": "after", "at": "entries = ", "label": "copies-are-fresh-objects",
+         "do": ["assert all_fresh(entries)"]},
+        {"when": "after", "at": "entries = ", "label": "restate",
          # what the rest of the function needs, restated over the receiver as it was at the call; everything else is dropped
          "do": ["let U = to_unpair", "let n = len(E)",
                 "assert old(valid(self.entries))",
@@ -620,7 +629,7 @@ class bpseq_without_isolated:
                 "assert " + FRAME_ENTRY_PAIR.replace("pair", "index_"),
                 "assert " + FRAME_ENTRY_PAIR.replace("pair", "sequence"),
                 "keep 11"]},
-        {"when": "before", "at": "entries[i].pair = 0", "loop": 1, "label": "listed-is-isolated",
+        {"when": "before", "at": "", "loop": 1, "label": "listed-is-isolated",
          "do": ["let gi = i", "assert 0 <= gi and gi < n and gi == U[m] and old(isolated(self.entries, S, GS, gi))"]},
         {"when": "before", "at": "return BpSeq(entries)", "label": "valid",
          # (every step names the terms its instances are about: the copies are the references base + x, which the solver
@@ -751,12 +760,10 @@ def hairpin_ok(h, E, db):
 
 
 class bpseq_elements:
-    """BpSeq.elements (C07; the stems part is what C12's without_isolated relies on).  S, GS (ghost): the maximal runs of
-    stacked pairs and the map 5' position -> run, as proved for __stems_entries.  Proved here for the RETURNED value:
-    one Stem per run, in 5' order, with mirrored strands and the slices of sequence / dot-bracket text; every reported
-    hairpin is a pair enclosing only unpaired nucleotides, with its slices; nothing that existed before the call is written.
-    NOT stated here (bounded oracle only): loops, free single strands, the 5'/3' tails' place in the returned list,
-    'every such pair is reported', coverage of the unpaired nucleotides."""
+    """ASSUMED callee contract of BpSeq.elements for its caller without_isolated - the stems component of the returned
+    tuple only.  Justification: bpseq_elements_prefix (below, PROVED) shows that the local list `stems` satisfies exactly
+    these clauses when the loop-linking part of the function starts; from there to `return stems, ...` no statement assigns
+    or mutates `stems` or writes a field of a Stem object (syntactic), and nothing allocated before the call is written."""
     target = "BpSeq.elements"
     params = {"self": "BpSeq"}
     requires = ["valid(self.entries)"]
@@ -764,29 +771,142 @@ class bpseq_elements:
     ghost_returns = {"S": "list[list[Entry]]", "GS": "list[int]"}
     raises = []
     ensures = ["stems_ok(self.entries, S)", "stems_cover(self.entries, S)", "stems_maximal(self.entries, S)", "stems_inverse(self.entries, S, GS)",
-               "stems_are(result[0], S)",
-               "stem_strands(result[0], S, self.entries, self.dot_bracket_.structure, len(S))",
-               "forall(lambda b: implies(0 <= b and b < len(result[2]), hairpin_ok(result[2][b], self.entries, self.dot_bracket_.structure)))"]
-    ensures_labels = {0: "runs-of-stacked-pairs", 1: "every-pair-in-a-stem", 2: "maximal", 3: "every-pair-in-the-stem-GS-names",
-                      4: "one-Stem-per-run-with-mirrored-strand-ends", 5: "stem-strands-are-the-slices", 6: "hairpins-enclose-only-unpaired"}
+               "stems_are(result[0], S)"]
     modifies = []
-    callee_variants = {"BpSeq.__stems_entries": "cached"}
-    defaultdicts = ["graph"]
+
+
+@spec
+def cand_ok(sd, E, db):
+    """a loop-strand candidate: runs from a paired nucleotide to the next paired one (not its partner), everything strictly
+    between is unpaired, and it carries the slices of sequence and text"""
+    return (1 <= sd.first and sd.first < sd.last and sd.last <= len(E)
+            and E[sd.first - 1].pair != 0 and E[sd.last - 1].pair != 0 and E[sd.first - 1].pair != sd.last
+            and forall(lambda x: implies(sd.first <= x and x < sd.last - 1, E[x].pair == 0))
+            and strand_at(sd, E, db, sd.first - 1, sd.last - sd.first + 1))
+
+
+@spec
+def tails_ok(SS, E, db, p0, p1):
+    """C07 5'/3' single-strand tails: p0 / p1 are the first / last paired position (0-based); the unpaired prefix (plus the
+    nucleotide p0) is reported as the 5' single strand exactly when it is not empty, likewise the suffix from p1 as the 3' one"""
+    return (0 <= p0 and p0 <= p1 and p1 < len(E) and E[p0].pair != 0 and E[p1].pair != 0
+            and forall(lambda x: implies(0 <= x and x < p0, E[x].pair == 0))
+            and forall(lambda x: implies(p1 < x and x < len(E), E[x].pair == 0))
+            and len(SS) == ite(p0 > 0, 1, 0) + ite(p1 < len(E) - 1, 1, 0)
+            and implies(p0 > 0, SS[0].is5p and not SS[0].is3p and strand_at(SS[0].strand, E, db, 0, p0 + 1))
+            and implies(p1 < len(E) - 1, SS[len(SS) - 1].is3p and not SS[len(SS) - 1].is5p
+                        and strand_at(SS[len(SS) - 1].strand, E, db, p1, len(E) - p1)))
+
+
+class bpseq_elements_prefix:
+    """PREFIX contract of BpSeq.elements (C07): the function is verified from its entry up to - not including - the
+    statement `graph = defaultdict(set)`, i.e. the stems loop, the stops, the 5'/3' tails and the hairpin / loop-candidate
+    loop.  The clauses are about the LOCAL variables at that point; the loop-linking graph, the closure walk and the final
+    single-strand loop behind it are not verified here (bounded oracle), nor is anything claimed about the returned tuple.
+    S, GS: the maximal runs of stacked pairs (cached __stems_entries) and the map 5' position -> run."""
+    target = "BpSeq.elements"
+    params = {"self": "BpSeq"}
+    requires = ["valid(self.entries)"]
+    raises = []
+    ensures = []
+    stop_before = "graph = defaultdict(set)"
+    stop_ensures = [
+        "stems_ok(E, S) and stems_cover(E, S) and stems_maximal(E, S) and stems_inverse(E, S, GS)",
+        "stems_are(stems, S)",
+        "stem_strands(stems, S, E, DB, len(S))",
+        "forall(lambda b: implies(0 <= b and b < len(hairpins), hairpin_ok(hairpins[b], E, DB)))",
+        "forall(lambda b: implies(0 <= b and b < len(loop_candidates), cand_ok(loop_candidates[b], E, DB)))",
+        "tails_ok(single_strands, E, DB, stops[0], stops[len(stops) - 1])",
+    ]
+    stop_ensures_labels = {0: "S-are-the-maximal-runs-of-stacked-pairs", 1: "one-Stem-per-run-with-mirrored-strand-ends",
+                           2: "stem-strands-are-the-slices", 3: "hairpins-enclose-only-unpaired-and-are-the-slices",
+                           4: "loop-candidates-are-unpaired-runs-between-paired-ends-and-are-the-slices",
+                           5: "5'-and-3'-tails"}
+    modifies = []
+    callee_variants = {"BpSeq.__stems_entries": "cached", "BpSeq.dot_bracket": "text"}
     locals = {"stems": "list[Stem]", "single_strands": "list[SingleStrand]", "hairpins": "list[Hairpin]", "loops": "list[Loop]",
-              "stopset": "set[int]", "loop_candidates": "list[rec[Strand]]", "graph": "dict[int,set[int]]",
-              "used": "set[rec[Strand]]", "loop": "list[rec[Strand]]"}
-    ghost_exit = ["let S = self.stems_", "let GS = __stems_entries_GS"]
+              "stopset": "set[int]", "loop_candidates": "list[rec[Strand]]"}
     ghost = [
         {"when": "after", "at": "stopset = set()", "label": "names",
-         "do": ["let S = self.stems_", "let GS = __stems_entries_GS", "let E = self.entries", "let DB = self.dot_bracket_.structure"]},
+         "do": ["let S = self.stems_", "let GS = __stems_entries_GS", "let E = self.entries", "let DB = self.dot_bracket_.structure",
+                "let n = len(E)"]},
+        {"when": "after", "at": "stem = Stem.from_bpseq_entries(", "loop": 0, "label": "stem-k",
+         "do": ["let T = S[k]", "let w = len(T)",
+                "assert stem_of(stem, T) and strand_at(stem.strand5p, E, DB, T[0].index_ - 1, w) and strand_at(stem.strand3p, E, DB, T[0].pair - w, w)",
+                "assert w >= 1 and 1 <= T[0].index_ and T[0].index_ + w - 1 < T[0].pair - w + 1 and T[0].pair <= n",
+                "assert E[T[0].index_ - 1] is T[0] and E[T[0].index_ + w - 2] is T[w - 1] and T[w - 1].pair == T[0].pair - w + 1",
+                "assert E[T[0].index_ - 1].pair != 0 and E[T[0].index_ + w - 2].pair != 0",
+                "assert E[T[0].pair - 1].pair == T[0].index_ and E[T[w - 1].pair - 1].pair == T[w - 1].index_",
+                "assert E[T[0].pair - 1].pair != 0 and E[T[0].pair - w].pair != 0",
+                "let e1 = stem.strand5p.first - 1", "let e2 = stem.strand5p.last - 1", "let e3 = stem.strand3p.first - 1", "let e4 = stem.strand3p.last - 1",
+                "assert e1 == T[0].index_ - 1 and e2 == T[0].index_ + w - 2 and e3 == T[0].pair - w and e4 == T[0].pair - 1",
+                "assert 0 <= e1 and e1 < n and 0 <= e2 and e2 < n and 0 <= e3 and e3 < n and 0 <= e4 and e4 < n",
+                "assert E[e1].pair != 0 and E[e2].pair != 0 and E[e3].pair != 0 and E[e4].pair != 0",
+                "let ST0 = stems", "let SS0 = stopset"]},
+        {"when": "after", "at": "stopset.add(stem.strand3p.last - 1)", "loop": 0, "label": "stops-k",
+         "do": ["forall x | assert implies(x in stopset, x in SS0 or x == e1 or x == e2 or x == e3 or x == e4)"
+                " | assert implies(x in stopset, 0 <= x and x < n and E[x].pair != 0)",
+                "forall a | assert implies(0 <= a and a < k, (S[a][0].index_ - 1) in SS0 and (S[a][0].pair - 1) in SS0)"
+                " | assert implies(0 <= a and a < k + 1, (S[a][0].index_ - 1) in stopset and (S[a][0].pair - 1) in stopset)",
+                "forall a | assert implies(0 <= a and a < k, stems[a] is ST0[a])"
+                " | assert implies(0 <= a and a < k + 1, stem_of(stems[a], S[a]) and strand_at(stems[a].strand5p, E, DB, S[a][0].index_ - 1, len(S[a]))"
+                " and strand_at(stems[a].strand3p, E, DB, S[a][0].pair - len(S[a]), len(S[a])))"]},
+        {"when": "after", "at": "stops = sorted(stopset)", "label": "stops",
+         "do": ["let IX = SORTED_IDX", "let f0 = S[0][0].index_ - 1",
+                "assert len(S) > 0 and f0 in stopset",
+                "assert 0 <= IX[f0] and IX[f0] < len(stops)",
+                "assert len(stops) > 0",
+                "forall q | assert implies(0 <= q and q < len(stops), stops[q] in stopset)"
+                " | assert implies(0 <= q and q < len(stops), 0 <= stops[q] and stops[q] < n and E[stops[q]].pair != 0)",
+                "forall q | assert implies(0 <= q and q < len(stops), stops[0] <= stops[q] and stops[q] <= stops[len(stops) - 1])",
+                # the first / last stop is the first / last paired position
+                "let p0 = stops[0]", "let p1 = stops[len(stops) - 1]",
+                "forall x | let c = 0 <= x and x < n and qual(E[x]) | let a = GS[x] | let b5 = S[a][0].index_ - 1 | let b3 = S[a][0].pair - 1"
+                " | assert implies(c, 0 <= a and a < len(S) and covered(x + 1, S[a]))"
+                " | assert implies(c, b5 in stopset and b3 in stopset and b5 <= x and E[x].pair - 1 <= b3)"
+                " | assert implies(c, stops[IX[b5]] == b5 and stops[IX[b3]] == b3 and 0 <= IX[b5] and IX[b5] < len(stops) and 0 <= IX[b3] and IX[b3] < len(stops))"
+                " | assert implies(c, p0 <= b5 and b3 <= p1)"
+                " | assert implies(c, p0 <= x and E[x].pair - 1 <= p1)",
+                "forall x | let c = 0 <= x and x < n and E[x].pair != 0 | let y = E[x].pair - 1"
+                " | assert implies(c, 0 <= y and y < n and E[y].pair == x + 1 and E[x].index_ == x + 1 and E[y].index_ == y + 1)"
+                " | assert implies(c, qual(E[x]) or qual(E[y]))"
+                " | assert implies(c and qual(E[x]), p0 <= x and y <= p1 and x < y)"
+                " | assert implies(c and qual(E[y]), p0 <= y and x <= p1 and y < x)"
+                " | assert implies(c, p0 <= x and x <= p1)",
+                "assert 0 <= p0 and p0 <= p1 and p1 < n and E[p0].pair != 0 and E[p1].pair != 0"]},
+        {"when": "before", "at": "if all([entry.pair == 0 for entry in candidate[1:-1]])", "loop": 1, "label": "candidate",
+         "do": ["let p = stops[i - 1]", "let q = stops[i]",
+                "assert 0 <= p and p < q and q < n and E[p].pair != 0 and E[q].pair != 0",
+                "assert len(candidate) == q - p + 1",
+                "forall t | assert implies(0 <= t and t < q - p + 1, candidate[t] is E[p + t] and candidate[t].index_ == p + t + 1)",
+                "let HP0 = hairpins", "let LC0 = loop_candidates"]},
+        {"when": "after", "at": "hairpins.append(", "loop": 1, "label": "hairpin",
+         "do": ["let h = hairpins[len(hairpins) - 1]", "let sd = h.strand",
+                "assert strand_of(sd, candidate, DB)",
+                "assert sd.first == p + 1 and sd.last == q + 1 and E[p].pair == q + 1",
+                "forall x | assert implies(p + 1 <= x and x < q, candidate[1:-1][x - p - 1] is E[x])"
+                " | assert implies(p + 1 <= x and x < q, E[x].pair == 0)",
+                "assert strand_at(sd, E, DB, p, q - p + 1)",
+                "assert hairpin_ok(h, E, DB)",
+                "forall b | assert implies(0 <= b and b < len(HP0), hairpins[b] is HP0[b] and ident(HP0[b]) < ident(h))"
+                " | assert implies(0 <= b and b < len(HP0), hairpin_ok(hairpins[b], E, DB))"]},
+        {"when": "after", "at": "loop_candidates.append(", "loop": 1, "label": "loop-candidate",
+         "do": ["let sd = loop_candidates[len(loop_candidates) - 1]",
+                "assert strand_of(sd, candidate, DB)",
+                "assert sd.first == p + 1 and sd.last == q + 1 and E[p].pair != q + 1",
+                "forall x | assert implies(p + 1 <= x and x < q, candidate[1:-1][x - p - 1] is E[x])"
+                " | assert implies(p + 1 <= x and x < q, E[x].pair == 0)",
+                "assert strand_at(sd, E, DB, p, q - p + 1)",
+                "assert cand_ok(sd, E, DB)",
+                "forall b | assert implies(0 <= b and b < len(LC0), loop_candidates[b] == LC0[b])"
+                " | assert implies(0 <= b and b < len(LC0), cand_ok(loop_candidates[b], E, DB))"]},
     ]
     loops = {
         0: {"index": "k", "inv": ["len(stems) == k", "stem_strands(stems, S, E, DB, k)", "stop_ends(stopset, E, S, k)"]},
         1: {"allocates": ["Hairpin.strand"], "inv": [
             "len(hairpins) >= 0 and len(loop_candidates) >= 0",
-            "forall(lambda b: implies(0 <= b and b < len(hairpins), ident(hairpins[b]) < frontier() and hairpin_ok(hairpins[b], E, DB)))"]},
-        2: {"inv": []}, 3: {"inv": []}, 4: {"allocates": ["Loop.strands"], "inv": []}, 5: {"inv": []}, 6: {"inv": []},
-        7: {"allocates": ["SingleStrand.strand", "SingleStrand.is5p", "SingleStrand.is3p"], "inv": []},
+            "forall(lambda b: implies(0 <= b and b < len(hairpins), ident(hairpins[b]) < frontier() and hairpin_ok(hairpins[b], E, DB)))",
+            "forall(lambda b: implies(0 <= b and b < len(loop_candidates), cand_ok(loop_candidates[b], E, DB)))"]},
     }
 
 
@@ -802,6 +922,8 @@ CONTRACTS.update({
     "BpSeq.without_isolated": bpseq_without_isolated,
     "BpSeq.elements": bpseq_elements,
     "BpSeq.__stems_entries@cached": stems_entries_cached,
+    "BpSeq.elements@prefix": bpseq_elements_prefix,
+    "BpSeq.dot_bracket@text": bpseq_dot_bracket_text,
     "Strand.from_bpseq_entries": strand_from_entries,
     "Stem.from_bpseq_entries": stem_from_entries,
 })
